@@ -73,16 +73,36 @@ func withTimeout(what string, f func() error) error {
 	var err error
 	ok := runner.WithTimeout(opTimeout, func() { err = f() })
 	if !ok {
-		buf := make([]byte, 1<<20)
+		buf := make([]byte, 64<<20)
 		buf = buf[:runtime.Stack(buf, true)]
 		var keep []string
+		seen := map[string]int{}
 		for _, g := range strings.Split(string(buf), "\n\n") {
-			if strings.Contains(g, "grailbio/bigslice/exec.") {
-				if len(g) > 2000 {
-					g = g[:2000]
-				}
-				keep = append(keep, g)
+			if !strings.Contains(g, "grailbio/bigslice/exec.") && !strings.Contains(g, "grailbio/bigmachine.") {
+				continue
 			}
+			// idle service loops of this and of earlier (abandoned) sessions are noise
+			if strings.Contains(g, "machineManager).Do(") || strings.Contains(g, "sliceMachine).Go(") || strings.Contains(g, "Do.func1") || strings.Contains(g, "monitorTaskStats") || strings.Contains(g, "logInvocation") {
+				continue
+			}
+			lines := strings.Split(g, "\n")
+			key := ""
+			for i, l := range lines {
+				if i > 0 && !strings.HasPrefix(l, "\t") {
+					if j := strings.Index(l, "("); j > 0 {
+						l = l[:j]
+					}
+					key += l + ";"
+				}
+			}
+			seen[key]++
+			if seen[key] > 2 {
+				continue
+			}
+			if len(g) > 3000 {
+				g = g[:3000]
+			}
+			keep = append(keep, g)
 		}
 		return fmt.Errorf("%s did not finish within %v (wedged)\n%s", what, opTimeout, strings.Join(keep, "\n\n"))
 	}
@@ -276,8 +296,8 @@ func (s *session) kill() error {
 			o.gone = true
 		}
 		s.mu.Unlock()
-		// let the loss be noticed (keepalive timeout 200 ms)
-		time.Sleep(400 * time.Millisecond)
+		// let the loss be noticed (keepalive timeout 2 s)
+		time.Sleep(2500 * time.Millisecond)
 	}
 	return nil
 }
@@ -303,6 +323,16 @@ func (s *session) apply(op Op) error {
 			}(i, p)
 		}
 		wg.Wait()
+		for _, p := range op.Par {
+			if p.K == "discard" {
+				// a Result created while the Discard was running may share the discarded tasks
+				s.mu.Lock()
+				for _, o := range s.results {
+					o.gone = true
+				}
+				s.mu.Unlock()
+			}
+		}
 		for i, e := range errs {
 			if e == nil {
 				continue
@@ -353,6 +383,10 @@ func runCase(c Case) (err error) {
 		exec.ProbationTimeout = 300 * time.Millisecond
 		exec.VerifSetRetryPolicy(retry.MaxRetries(retry.Backoff(5*time.Millisecond, 50*time.Millisecond, 2), 5))
 		s.sys = faultsys.New(2)
+		// kills are noticed within ~2 s; generous enough that a busy host does not fake a machine loss
+		s.sys.KeepalivePeriod = 200 * time.Millisecond
+		s.sys.KeepaliveTimeout = 2 * time.Second
+		s.sys.KeepaliveRpcTimeout = time.Second
 		opts := []exec.Option{exec.Bigmachine(s.sys), exec.Parallelism(4)}
 		if c.MC {
 			opts = append(opts, exec.MachineCombiners)
